@@ -17,6 +17,11 @@ def nontrivial(d, r):
 
 class C01(flatcheck.FlatCheck):
     prop = 'C01'
+    manifest = dict(
+        level='proof', design='DESIGN.md 4/C01',
+        text="Lean 4 theorems C01_step / C01_history: every trace of the flat engine model, for all configurations, histories and condition valuations, is accepted by the documented-order acceptor; the model is tied to /repo by trace equality on generated cases and the same compiled acceptor judges the implementation's traces.",
+        note="Trusted: Lean kernel (+propext, Quot.sound), hand-written model Model/Core.lean, acceptor Model/Spec/C01.lean, harness recorders; theorem hypotheses NoRaise/NoCmds/WF (raising callbacks and re-entrancy are C04/C05).",
+        technique="Lean 4 proof (induction over histories) + differential correspondence + verified trace monitor")
     level = 'proof'
     theorems = ('TM.C01_step', 'TM.C01_history')
     streams = (
